@@ -25,6 +25,9 @@ var namePool = []string{
 	"i", "int", "in", "r", "rate", "ratio", "m", "map", "max", "min", "w", "u", "g", "e", "j",
 }
 
+// Numbered families: names whose numeric and alphabetic order disagree, with names in between.
+var numberedPool = []string{"level9", "level10", "level1x", "v2", "v10", "v1beta", "n1", "n02", "n2", "level", "v1", "n10"}
+
 var cmdPool = []string{"list", "run", "show", "v", "help", "log", "get", "set", "x", "sub", "wrap", "exec", "name", "1", "日本", "dev", "build", "a"}
 
 var wordPool = []string{
@@ -41,7 +44,7 @@ var strValPool = []string{
 	"1", "0", "3.5", "1..3", "1e3", "NaN",
 }
 
-var intValid = []string{"0", "7", "-7", "+7", "007", "42", "123456", "-1", "9223372036854775807", "-9223372036854775808", "1", "2", "3", "10"}
+var intValid = []string{"0", "7", "-7", "+7", "007", "42", "123456", "-1", "9223372036854775807", "-9223372036854775808", "1", "2", "3", "10", "010", "0100", "-012", "+08", "0099"}
 var intInvalid = []string{"1..3", "3..7", "-2..2", "0..1", "", " 1", "1 ", "1.0", "1e3", "0x10", "1_000", "１２", "9223372036854775808", "-9223372036854775809", "abc", "1a", "a1", "--1", "+-1", "1..", "..1", "NaN", "12abc", "0b1", "٣", "1\n", "\n1", "1=2", "="}
 var floatValid = []string{"0", "1.5", "-1.5", "+2.25", ".5", "5.", "1e3", "1E-3", "007", "0x1p-2", "NaN", "Inf", "-Inf", "+Inf", "inf", "nan", "infinity", "1e308", "-0", "4.9e-324", "1e-400", "123456789.125", "3", "0x10", "0X1P+4"}
 var floatInvalid = []string{"1..3", "1.5..2.5", "", " 1", "1 ", "1e", "e1", "1e309", "-1e309", "1_000", "１.５", "abc", "1.2.3", "1,5", "--1", "0x", "0x1", "1..3", ".", "+", "1f", "1\n", "NaNx", "in", "1=2", "="}
@@ -76,6 +79,7 @@ type GenCfg struct {
 	MixedUnknown  bool // allow per-command unknown-mode overrides
 	NoCmdRO       bool // never set require-order on a sub-command only
 	CmdRO         bool // allow require-order on sub-commands even when the root never has it
+	NumberedNames bool // a quarter of the definitions take their option names from numbered families (level9, level10, level1x)
 	Descriptions  bool
 	Valid         bool // allow ValidValues / SuggestedValues
 	SetCalled     bool
@@ -99,11 +103,14 @@ type genCtx struct {
 	reserved map[string]bool // help name + aliases
 	envN     int
 	spec     *ProgSpec
+	numbered bool
 }
 
 func (g *genCtx) name(used map[string]bool, label string) string {
 	pool := namePool
-	if g.cfg.SingleLetters == 1 && rapid.IntRange(0, 2).Draw(g.t, label+"_sl") > 0 {
+	if g.numbered {
+		pool = numberedPool
+	} else if g.cfg.SingleLetters == 1 && rapid.IntRange(0, 2).Draw(g.t, label+"_sl") > 0 {
 		pool = []string{"a", "b", "c", "x", "y", "z", "q", "V", "X", "v", "h", "l", "d", "n", "o", "f", "é", "ñ", "日", "1", "2", "p", "t", "s", "k", "i", "r", "m", "w", "u", "g", "e", "j"}
 	}
 	for try := 0; try < 40; try++ {
@@ -230,10 +237,15 @@ func (g *genCtx) cmd(name string, depth int, used map[string]bool) CmdSpec {
 				continue
 			}
 			seen[cn] = true
-			ch := g.cmd(cn, depth+1, myUsed)
-			if g.cfg.Unset && rapid.IntRange(0, 5).Draw(t, "unset") == 0 {
-				ch.Unset = true
+			unset := g.cfg.Unset && rapid.IntRange(0, 5).Draw(t, "unset") == 0
+			childUsed := myUsed
+			if unset && rapid.Bool().Draw(t, "unsetcollide") {
+				// a wrapper that unset the inherited options may declare the same names and aliases again:
+				// different options under the same key at two levels
+				childUsed = map[string]bool{}
 			}
+			ch := g.cmd(cn, depth+1, childUsed)
+			ch.Unset = unset
 			if g.cfg.MixedUnknown && rapid.IntRange(0, 3).Draw(t, "unkov") == 0 {
 				ch.UnknownMode = 1 + rapid.SampledFrom(g.cfg.UnkModes).Draw(t, "unkovv")
 			}
@@ -254,6 +266,9 @@ func GenProg(t *rapid.T, cfg GenCfg) *ProgSpec {
 	g := &genCtx{t: t, cfg: cfg, reserved: map[string]bool{}}
 	p := &ProgSpec{}
 	g.spec = p
+	if cfg.NumberedNames {
+		g.numbered = rapid.IntRange(0, 3).Draw(t, "numbered") == 0
+	}
 	p.Mode = rapid.SampledFrom(cfg.Modes).Draw(t, "mode")
 	p.ModeLate = rapid.IntRange(0, 3).Draw(t, "modelate") == 0
 	p.UnknownMode = rapid.SampledFrom(cfg.UnkModes).Draw(t, "unkmode")
